@@ -2021,9 +2021,48 @@ def _c18_blocked_sibling_harnesses(prop, tier):
     return out
 
 
+def _c17_spawn_nest_harnesses(prop):
+    """C17 nesting under the SPAWNING kinds (native only): a spawning macro nested inside a branch of another spawning
+    macro - the inner expansion becomes part of a spawned thread's closure / a spawned task's future and has to satisfy
+    the bounds spawning needs (Send + 'static), to depth 3; names of the levels must not clash"""
+    out = []
+    T = "tokio::time::timeout(std::time::Duration::from_secs(20), %s).await"
+    inner_a = "join_async_spawn! { async move { a }, async { 3u8 } |> |x: u8| x.wrapping_add(1) }"
+    inner_t = "try_join_async_spawn! { async move { Ok::<u8, u8>(a) }, async { Ok::<u8, u8>(3) } |> |r: Result<u8, u8>| r.map(|x: u8| x.wrapping_add(1)) }"
+    progs = [
+        ("async_spawn_in_async_spawn", "join_async_spawn! { async { 1u8 } |> |x: u8| x.wrapping_add(1), async move { %s.await } |> |(p, q): (u8, u8)| p.wrapping_add(q) }" % inner_a,
+         "(u8, u8)", "(2u8, a.wrapping_add(4))"),
+        ("try_async_spawn_in_async_spawn", "join_async_spawn! { async { 1u8 }, async move { %s.await } |> |r: Result<(u8, u8), u8>| r.map(|(p, q)| p.wrapping_add(q)) }" % inner_t,
+         "(u8, Result<u8, u8>)", "(1u8, Ok(a.wrapping_add(4)))"),
+        ("async_spawn_depth3", "join_async_spawn! { async { 1u8 }, async move { join_async_spawn! { async { 2u8 }, async move { %s.await } |> |(p, q): (u8, u8)| p.wrapping_add(q) }.await } |> |(p, q): (u8, u8)| p.wrapping_add(q) }" % inner_a,
+         "(u8, u8)", "(1u8, a.wrapping_add(6))"),
+        ("async_spawn_in_operand_closure", "join_async_spawn! { async { 1u8 }, async { 2u8 } -> move |f| async move { let x: u8 = f.await; let (p, q) = %s.await; p.wrapping_add(q).wrapping_add(x) } }" % inner_a,
+         "(u8, u8)", "(1u8, a.wrapping_add(6))"),
+    ]
+    for (name, prog, rty, exp) in progs:
+        b = "    let a: u8 = kani::any();\n"
+        b += "    let r = block_on_tokio(async move {\n        let fut = %s;\n        %s\n    });\n" % (prog, T % "fut")
+        b += "    assert!(r.is_ok(), \"C17: nested spawning macros did not complete\");\n"
+        b += "    let r: %s = r.unwrap();\n    assert!(r == %s, \"C17: nesting changed a result (name clash between levels?)\");\n" % (rty, exp)
+        hn = "%s_spawn_nest_%s" % (prop.lower(), name)
+        out.append(Harness(hn, harness_fn(hn, b), prog, note="spawning macro nested inside a spawned branch, tokio runtime, native"))
+    # thread-spawning kinds: the inner macro runs inside a spawned thread's closure
+    sync_progs = [
+        ("spawn_in_spawn", "join_spawn! { 1u8 -> |x: u8| x.wrapping_add(1), a -> |x: u8| { let (p, q) = join_spawn! { x -> |v: u8| v, 3u8 -> |v: u8| v.wrapping_add(1) }; p.wrapping_add(q) } }", "(u8, u8)", "(2u8, a.wrapping_add(4))"),
+        ("try_spawn_in_spawn_depth3", "join_spawn! { 1u8 -> |x: u8| x, a -> |x: u8| { let (p, q) = join_spawn! { 2u8 -> |v: u8| v, x -> |v: u8| try_join_spawn! { Some(v) |> |w: u8| w, Some(3u8) |> |w: u8| w.wrapping_add(1) }.map(|(s, t)| s.wrapping_add(t)).unwrap_or(0) }; p.wrapping_add(q) } }", "(u8, u8)", "(1u8, a.wrapping_add(6))"),
+    ]
+    for (name, prog, rty, exp) in sync_progs:
+        b = "    let a: u8 = kani::any();\n    let r: %s = %s;\n    assert!(r == %s, \"C17: nesting changed a result (name clash between levels?)\");\n" % (rty, prog, exp)
+        hn = "%s_spawn_nest_%s" % (prop.lower(), name)
+        out.append(Harness(hn, harness_fn(hn, b), prog, note="thread-spawning macro nested inside a spawned branch, native"))
+    return out
+
+
 def native_families(pid, tier):
     out = []
     quick = tier == "quick"
+    if pid == "C17":
+        out += _c17_spawn_nest_harnesses(pid)
     if pid == "C18":
         out += _c18_blocked_sibling_harnesses(pid, tier)
         out += _c18_capture_handler_harnesses(pid, tier)
